@@ -6,7 +6,7 @@ macro_rules! cfg {
         let tier = $run.tier;
         $run.explore(&t::$fam::u::<$n, $z>(), &plans::arith::<$fam::U<$n>>(tier));
         $run.explore(&t::$fam::i::<$n, $z>(), &plans::arith::<$fam::I<$n>>(tier));
-        // thorough: closure pass (non-initial states derived by the model)
+        // closure pass (non-initial states derived by the model): light in the quick tier
         if !$run.in_replay() {
             if let Some(p) = plans::closure_plan(&t::$fam::u::<$n, $z>(), tier) {
                 $run.explore(&t::$fam::u::<$n, $z>(), &p);
